@@ -117,6 +117,7 @@ type CfgSpec struct {
 	Locator  int          `json:"locator"`
 	NilPool  bool         `json:"nil_pool"`
 	NilCfg   bool         `json:"nil_cfg"`
+	Idle     uint64       `json:"idle,omitempty"` // channelPool.idle_timeout (a field no statement gives a meaning to)
 	Extra    []ExtraEntry `json:"extra,omitempty"`
 }
 
@@ -147,6 +148,8 @@ type Plan struct {
 	Second bool `json:"second,omitempty"`
 	// DynMsg: keyed calls use a message type made for this run (reflect.StructOf)
 	DynMsg bool `json:"dyn_msg,omitempty"`
+	// UniField: the key field addressed by the locator "name" is called "ключ"
+	UniField bool `json:"uni_field,omitempty"`
 	// ScaleMix: the plan carries the "pool starts with 17-40 channels" fragment
 	ScaleMix bool `json:"scale_mix,omitempty"`
 	Ops      []Op `json:"ops"`
@@ -336,6 +339,9 @@ func baseCfg(r *rand.Rand) CfgSpec {
 	c.Fallback = r.IntN(2) == 0
 	c.RR = r.IntN(4) == 0
 	c.Locator = r.IntN(nGoodLocators)
+	if r.IntN(4) == 0 {
+		c.Idle = []uint64{1, 2, 60, 3600}[r.IntN(4)] // seconds
+	}
 	return c
 }
 
@@ -384,6 +390,7 @@ func Generate(r *rand.Rand, profile string, concurrent bool, av Avoid) *Plan {
 	p.Verbose = r.IntN(8) == 0 || (profile == "chaos" && r.IntN(4) == 0)
 	p.Second = !concurrent && r.IntN(6) == 0
 	p.DynMsg = r.IntN(4) == 0
+	p.UniField = r.IntN(5) == 0
 	p.SharedAddrs = r.IntN(4) == 0
 	p.OddKeys = r.IntN(6) == 0
 	if concurrent {
@@ -1152,6 +1159,7 @@ func Simplify(p *Plan) []*Plan {
 	add(func(c *Plan) bool { ch := c.OddKeys; c.OddKeys = false; return ch })
 	add(func(c *Plan) bool { ch := c.Second; c.Second = false; return ch })
 	add(func(c *Plan) bool { ch := c.DynMsg; c.DynMsg = false; return ch })
+	add(func(c *Plan) bool { ch := c.UniField; c.UniField = false; return ch })
 	for i := range p.Ops {
 		i := i
 		o := p.Ops[i]
